@@ -7,7 +7,7 @@ CONSTANTS MaxC, MaxAtoms, Shapes
 
 U_class == {LenAtom(op, c, sd, g, "const") : op \in LenOps, c \in 0..MaxC, sd \in Sides, g \in {"none", "isnone", "other"}}
 U_plain == {LenAtom(op, c, "L", "none", "const") : op \in LenOps \ {"!="}, c \in 0..MaxC}
-U_small == {LenAtom(op, c, "L", "none", "const") : op \in {"<=", ">=", "=="}, c \in 0..MaxC}
+U_small == {LenAtom(op, c, "L", "none", "const") : op \in {"<=", ">=", "=="}, c \in {0, MaxC}}
 U_forms == {LenAtom("<=", 1, "L", "none", f) : f \in {"nonconst", "conj"}}
 
 SeqsUpTo(U, n) == UNION {[1..m -> U] : m \in 0..n}
